@@ -13,7 +13,7 @@ TRUSTED = [
     "overflow checks on (the harness profile enables them, as the test profile does)",
 ]
 RULE = ("exhaustive packets over the alphabet {00,01,7f,80,ff,41} up to a length bound x all op sequences up to a depth bound over 31 ops, "
-        "plus random longer packets/sequences, VarInt boundary values and random strings; a case is non-trivial when the model's "
+        "plus packets that begin with a byte order mark (FF FE, FE FF, EF BB BF) under every text decoder, with and without length prefixes, random longer packets/sequences, VarInt boundary values and random strings; a case is non-trivial when the model's "
         "output contains at least one Ok result that consumed >= 1 byte or a non-underflow error; distinct by case bytes")
 
 ALPHA = [0x00, 0x01, 0x7F, 0x80, 0xFF, 0x41]
@@ -84,6 +84,21 @@ def gen_cases(tier, rng):
             else:
                 ops.append(r.choice(OPS))
         cases.append({"id": "rand/%d" % i, "hex": bufcase(r.below(2), pkt, ops), "meta": {"stream": "random"}})
+    # byte order marks: no text decoder may treat a leading FF FE / FE FF / EF BB BF as anything but characters
+    boms = [b"\xff\xfe", b"\xfe\xff", b"\xef\xbb\xbf", b"\xef\xbb", b"\xff\xfe\x00\x00", b"\x00\x00\xfe\xff"]
+    tails = [b"A\x00B\x00\x00\x00", b"\x00A\x00B\x00\x00", b"AB\x00", b"", b"\x00\x00"]
+    text_ops = [bytes([11]), bytes([12, 0x41]), bytes([13]), bytes([14, 0x41]), bytes([15]), bytes([16]), bytes([17, 0x41, 0x00]), bytes([18, 0x00, 0x41]), bytes([19])]
+    nb = 0
+    for bom in boms:
+        for tail in tails:
+            body = bom + tail
+            pkts_b = [body, bytes([len(body)]) + body, bytes([0x80 | (len(body) // 2)]) + body, bytes([0x80 | ((len(body) + 1) // 2)]) + body + b"\x00",
+                      bytes([len(body) + 1]) + body + b"\x00"]
+            for pkt in pkts_b:
+                for op in text_ops:
+                    for order in (0, 1):
+                        cases.append({"id": "bom/%d" % nb, "hex": bufcase(order, pkt, [op, bytes([21])]), "meta": {"stream": "byte-order-marks"}})
+                        nb += 1
     # VarInt: all boundaries
     vals = set()
     for k in range(33):
